@@ -182,6 +182,23 @@ def run_order(prog, tier, repo):
                               f'{kind.strip(":")}-ed under the same key(s) as parsed_modules: after this operation one module '
                               f'map has an entry the others lack, so a module is checked against a signature set that '
                               f'misses (or still has) it, or a request unwraps a lookup that now fails')
+        # a module map must never be inserted into and *then* removed from within one request element: when the removed key can
+        # equal the inserted one (renaming a module onto itself, or onto a name handled earlier in the batch) the fresh entry is
+        # deleted again and the module vanishes from that map while the other maps still hold it
+        heads_ = {h for (_, h) in cfg.back_edges()}
+        for m in ('parsed_modules', 'global_cx', 'string_sources', 'checked_modules'):
+            ins = [bi for bi, t, f in _map_calls(b, ('::insert',)) if f == m]
+            rem = [bi for bi, t, f in _map_calls(b, ('::remove',)) if f == m]
+            if not ins or not rem:
+                continue
+            k3 = f'order:{b.name}:{m}:remove-before-insert'
+            late = [(i, r) for i in ins for r in rem if r in cfg.reachable(i, removed_nodes=list(heads_ - {i}))]
+            if late:
+                res.violation(k3, b.loc(b.blocks[late[0][1]].term[7]), f'{b.name} removes an entry of {m} after inserting one in the same '
+                              f'step: if the two keys coincide the entry just stored is deleted and the module disappears from {m} '
+                              f'(its importers then report it as unresolvable although a fresh analysis finds it)')
+            else:
+                res.ok(k3, b.loc(), f'{m}: entries are removed before new ones are inserted')
     return [res]
 
 
@@ -436,4 +453,73 @@ def run_dirty(prog, tier, repo):
                               f'not in that set, so the syntax errors of such a module silently disappear')
             else:
                 res.ok(key2, b.loc(rt[7]), 'every module announced to recheck as re-parsed is parsed on every path')
+    return [res]
+
+
+# ---------------------------------------------------------------------------------------------------------------------
+# SIG-ALL-MODULES (C10): module existence is decided by key presence in the global signature ("Cannot resolve module" when
+# the key is absent). The incremental path stores a signature for every module it parses (UPDATE-ORDER pairing); the
+# from-scratch path must do the same for every module of the sources map, so the map it returns is built from an iteration
+# over *all* sources through element-preserving adapters only (map / collect / chain), never through a filtering one.
+
+FILTERING = ('filter', 'filter_map', 'skip', 'take', 'skip_while', 'take_while', 'step_by', 'flat_map', 'find', 'find_map',
+             'filter_map_ok', 'dedup', 'unique', 'take_any', 'skip_any', 'positions')
+
+
+def run_sig_all(prog, tier, repo):
+    from ..cfg import single_def
+    res = RuleResult('SIG-ALL-MODULES', 'C10: the from-scratch analysis stores a signature for every module of the sources map (no '
+                     'filtering between iterating the sources and collecting the signature map), as the incremental path does')
+    n = 0
+    for b in prog.bodies.values():
+        if b.crate != 'samlang_checker' or b.kind == 'closure' or not b.pub or b.nargs < 1:
+            continue
+        r0, p1 = b.locals[0], b.locals[1]
+        if not (r0.k == 'adt' and r0.name.startswith('std::collections::HashMap') and 'ModuleSignature' in r0.s
+                and p1.k == 'ref' and 'HashMap' in p1.s and 'Module<' in p1.s):
+            continue
+        n += 1
+        key = f'sig-all:{b.name}'
+        # trace the returned map back through its producing calls
+        cur = 0
+        chain = []
+        problem = None
+        reached = False
+        for _ in range(20):
+            sd = single_def(b, cur)
+            if not sd:
+                problem = 'the returned map cannot be traced to an iteration over the sources'
+                break
+            if sd[1] != 'term':
+                rv = sd[2]
+                if rv[0] == 'use' and rv[1][0] in ('c', 'm') and not rv[1][1].proj:
+                    cur = rv[1][1].local
+                    continue
+                if rv[0] == 'ref' and rv[2].local == 1:
+                    reached = True
+                    break
+                problem = 'the returned map cannot be traced to an iteration over the sources'
+                break
+            t = sd[2]
+            short = (callee(t)[1] or '').split('::')[-1]
+            chain.append((short, t[7]))
+            if short in FILTERING:
+                problem = f'`{short}` (line {t[7]}) drops modules before their signatures are collected'
+                break
+            if not t[3] or t[3][0][0] not in ('c', 'm'):
+                problem = 'the returned map cannot be traced to an iteration over the sources'
+                break
+            r, _ = operand_root(b, t[3][0])
+            if r == 1:
+                reached = True
+                break
+            cur = t[3][0][1].local
+        if problem is None and not reached:
+            problem = 'the returned map cannot be traced to an iteration over the sources'
+        if problem:
+            res.violation(key, b.loc(), f'{b.name}: {problem}: a module without a signature entry is reported as unresolvable by the '
+                          f'from-scratch analysis while the incremental path (which always stores an entry) accepts imports of it')
+        else:
+            res.ok(key, b.loc(), 'signature map = ' + ' <- '.join(c for c, _ in chain) + ' over all sources')
+    res.floor('from-scratch signature builders', n, 1)
     return [res]
